@@ -43,10 +43,12 @@ def run(ctx):
         allrows = [r for r in allrows if vf.canon(r["cells"]) in keep] or allrows
 
     # ---- programs
-    reps = 50
+    reps = 50 if ctx.thorough else 25
     progs, slow, skipped = [], [], 0
     for r in allrows:
         cons = list(ALL_CONSUMERS) + (MAP_CONSUMERS if r["cells"][0]["kind"] == "map" else [])
+        if len(r["cells"]) > 3:      # chains: the operations that walk the whole value
+            cons = [c for c in cons if c in ("ser", "serdeser", "native", "notify", "valuesser")]
         a = r["asis"]
         for c in cons:
             if c == "native" and "diverge" in a["nat"]:
@@ -72,12 +74,16 @@ def run(ctx):
     nprocs = 4 if ctx.thorough else 3
     per_prog = {}
     total_runs = 0
-    for k in range(nprocs):                      # separate processes: separate Go map hash seeds
-        res, deaths = nv.run_children_parallel(ctx, binary, "TestVerifPrograms", items, "proc%d" % k, 900, min(vf.NCPU, 6), defop="run")
-        for o in res:
-            per_prog.setdefault(o["id"], []).append(o)
-            total_runs += o.get("runs", 0)
-        ctx.log("process group %d: %d programs answered, %d child deaths" % (k, len(res), deaths))
+    import concurrent.futures
+    with concurrent.futures.ThreadPoolExecutor(max_workers=nprocs) as ex:      # separate processes: separate Go map hash seeds
+        futs = [ex.submit(nv.run_children_parallel, ctx, binary, "TestVerifPrograms", items, "proc%d" % k, 300,
+                          max(2, vf.NCPU // nprocs), 8, "items", None, "run") for k in range(nprocs)]
+        for k, f in enumerate(futs):
+            res, deaths = f.result()
+            for o in res:
+                per_prog.setdefault(o["id"], []).append(o)
+                total_runs += o.get("runs", 0)
+            ctx.log("process group %d: %d programs answered, %d child deaths" % (k, len(res), deaths))
     # ---- oracle: one property-level observation per program over all runs in all processes
     viol = {}
     drift = 0
